@@ -732,6 +732,7 @@ class C2Profile(ConfigBlock):
         list_props = [
             "stage.transform-x86.header",
             "process-inject.transform-x86",
+            "process-inject.transform-x64",
             "process-inject.execute",
             "http-post.server.output",
             "http-post.client.id",
